@@ -482,11 +482,18 @@ def c28(run, tier):
     run.assumptions = mini_assume() + ["WellFormedAnswer is evaluated by the driver on the structured answer the harness projects (harness/src/solver.rs solution_detail)"]
     rnd = random.Random(seed() * 19 + 9)
     extra_prog = ("struct A {} struct B {} struct V<T> {} struct L<'a> {} struct K<const N> {} trait T1 {} trait T2<'a> {} trait T3<const N> {} "
-                  "impl T1 for A {} impl<T> T1 for V<T> where T: T1 {} impl<'a> T2<'a> for L<'a> {} impl<'a> T2<'a> for A {} impl<const N> T3<N> for K<N> {} impl T3<3> for A {}")
+                  "impl T1 for A {} impl<T> T1 for V<T> where T: T1 {} impl<'a> T2<'a> for L<'a> {} impl<'a> T2<'a> for A {} impl<const N> T3<N> for K<N> {} impl T3<3> for A {} "
+                  "trait M {} impl<T> M for T {} trait Same<T> {} impl<T> Same<T> for T {}")
     extra_goals = ["exists<'a> { L<'a>: T2<'a> }", "exists<'a, T> { T: T2<'a> }", "forall<'b> { exists<'a> { L<'b>: T2<'a> } }", "exists<const N> { K<N>: T3<N> }",
                    "exists<const N, T> { T: T3<N> }", "forall<const M> { exists<const N> { K<M>: T3<N> } }", "forall<T> { exists<U> { V<T> = U } }",
                    "forall<T> { exists<U> { if (T: T1) { U: T1 } } }", "exists<T> { forall<U> { V<T> = V<U> } }", "forall<'a> { forall<T> { exists<'b, U> { V<U> = V<T>, L<'b> = L<'a> } } }",
-                   "forall<T> { forall<const N> { exists<const M> { T = T, K<M> = K<N> } } }", "exists<T, U> { T = V<U>, U: T1 }"]
+                   "forall<T> { forall<const N> { exists<const M> { T = T, K<M> = K<N> } } }", "exists<T, U> { T = V<U>, U: T1 }",
+                   # an unknown introduced under a `forall` that is not at the head of the goal (the forall sits behind a conjunction)
+                   "exists<T> { T: M, forall<'b> { exists<'a> { T = L<'a> } } }", "exists<T> { T: M, forall<U> { exists<W> { T = V<W> } } }",
+                   "exists<T> { T: M, forall<const N> { exists<const P> { T = K<P> } } }", "exists<T> { T: M, forall<'b> { exists<'a> { L<'a>: Same<T> } } }",
+                   "exists<T> { T: M, forall<U> { exists<W> { V<W>: Same<T> } } }", "exists<T, U> { T: M, forall<'b> { exists<'a> { T = V<U>, U = L<'a> } } }",
+                   "exists<T> { A: M, forall<'b> { T = L<'b> } }", "exists<T> { A: M, forall<U> { exists<W> { T = V<W>, W: M } } }",
+                   "exists<'x> { A: M, forall<'b> { exists<'a> { L<'x> = L<'a> } } }", "exists<T> { T: M, forall<'b> { forall<'c> { exists<'a> { T = L<'a> } } } }"]
     n = 900 if tier == "thorough" else 120
     byprog = model_check(run, sample_programs(n, rnd, False), "C28")
     if byprog is None: return
